@@ -23,7 +23,7 @@
    cyclic and shared structures) and PART 3 must give the identical verdict.
 
    Generation: the Emit "invariant" prints one GEN line per (pre, op, post)
-   triple (all of them for SampleMod = 1, else a seed-determined 1/SampleMod
+   triple (all of them for SampleMod = 1, else a seed-determined, roughly 1/SampleMod
    sample); lib/check_c16.py replays them on the real code. *)
 EXTENDS IvAvl, TLC, Json, IOUtils
 
